@@ -78,7 +78,7 @@ def client_layer(ctx):
       n = rng.randint(1, 3)
       k = rng.choice([n, n, n + 1, max(n - 1, 0)])
       env = {'raise': False, 'ps': [rng.choice(['p1', 'p2']) for _ in range(k)], 'md': {'c1': 'None'}}
-      world.ScriptedPolicy.env = env
+      world.set_env(env)
       before = w.project()
       vc = vizier_client.VizierClient(w.sname('s1'), cid, w.svc)
       got = [int(t.id) for t in vc.get_suggestions(n)]
